@@ -507,12 +507,20 @@ pub fn run(cli: Cli) -> ! {
     let initials: Vec<Vec<(String, String)>> = vec![vec![], vec![("a".into(), "ready".into())], vec![("a".into(), "ready".into()), ("b".into(), "shutdown".into())]];
     let mut specs: Vec<Spec> = vec![];
     for init in &initials {
-        let (depth, gone_depth) = if thorough { (3, 3) } else { (2, 0) };
+        let (depth, gone_depth) = if thorough { (3, 0) } else { (2, 0) };
         for h in histories(init, depth, gone_depth) {
             specs.push(Spec { initial: init.clone(), history: h, paged: false });
         }
     }
     if thorough {
+        // every history of depth <= 2 that contains a 410 (each costs the watcher's error backoff of about a second)
+        for init in &initials {
+            for h in histories(init, 2, 2) {
+                if h.iter().any(|e| matches!(e, Ev::Gone | Ev::GoneAndDelete { .. } | Ev::GoneAndApply { .. })) {
+                    specs.push(Spec { initial: init.clone(), history: h, paged: false });
+                }
+            }
+        }
         // depth 4 from the richest initial state, without 410 (each costs the watcher's error backoff)
         for h in histories(&initials[2], 4, 0) {
             specs.push(Spec { initial: initials[2].clone(), history: h, paged: false });
@@ -569,7 +577,7 @@ pub fn run(cli: Cli) -> ! {
     rep.set("histories", json!(specs.len()));
     rep.set("list_requests_served", json!(counters.1.load(Ordering::Relaxed)));
     rep.set("exhaustive", json!(true));
-    rep.set("rule", json!("all maximal histories up to the depth over 20 events (ADDED/MODIFIED of two game servers in 6 shapes, DELETED, BOOKMARK, watch closed cleanly, 410 Gone followed by a re-list, 410 Gone with an object deleted / changed while the watch is down, 410 Gone whose paginated re-list is cut off after the first page while listed objects disappear), pruned to events enabled in the mock's current truth, from 3 initial LIST contents; after every event a marker object is toggled and awaited (barrier) and the snapshot compared with the reference map. quick: depth 2 without 410 plus 10 selected histories with deletions, re-lists and changes during a watch outage; thorough: depth 3 with one 410, depth 4 without."));
+    rep.set("rule", json!("all maximal histories up to the depth over 20 events (ADDED/MODIFIED of two game servers in 6 shapes, DELETED, BOOKMARK, watch closed cleanly, 410 Gone followed by a re-list, 410 Gone with an object deleted / changed while the watch is down, 410 Gone whose paginated re-list is cut off after the first page while listed objects disappear), pruned to events enabled in the mock's current truth, from 3 initial LIST contents; after every event a marker object is toggled and awaited (barrier) and the snapshot compared with the reference map. quick: depth 2 without 410 plus 10 selected histories with deletions, re-lists and changes during a watch outage; thorough: depth 3 and depth 4 without 410, every depth-2 history with one 410, paginated depth-2 histories."));
     rep.sample(json!({"spec": specs[0]}));
     rep.sample(json!({"spec": Spec { initial: vec![("a".into(), "ready".into())], history: vec![Ev::Delete { name: "a".into() }], paged: false }, "expect": "'a' is no longer offered"}));
     rep.assume("the Kubernetes API is a hand-written HTTP/1.1 mock (LIST + chunked WATCH); the kube client, watcher and backoff run unmodified; OS timing only enters through 5-8 s deadlines on barriers");
